@@ -636,7 +636,19 @@ def c19_18(ctx):
 
 
 
+def c19_19(ctx):
+    """compact-size integers and strings on every width boundary: canonical form written, inverse read (rules/bitcodecs.py varint_cells)"""
+    from rules.bitcodecs import try_cells, varint_cells
+    r = try_cells(varint_cells, ctx)
+    if r is None:
+        mod, fn = rl.get(ctx, "helper:encode_varint")
+        return [ctx.err("helper:encode_varint", "compact-size codec outside the evaluator's subset", fn, mod)]
+    return r
+
+
+
 OBLIGATIONS = [
+    ("C19.19", "CELLS compact size (shared)", c19_19),
     ("C19.18", "CELLS messages", c19_18),
     ("C19.17", "CELLS envelope", c19_17),
     ("C19.16", "LAYOUT vs spec (shared C17.5)", c19_16),
